@@ -213,8 +213,8 @@ def mixed_alignment(eng, res, rnd, tier):
             else:
                 res.feat("mixed-align:skipped (misplaced aligned structure with bit-fields or inside a union: pending finding)")
                 continue
-        sigs = s1_mixed.sigs_any_mode(tree, ptr, endian)
         top_align = plan[-1][2]
+        sigs = s1_mixed.sigs_mixed(tree2, top_align, ptr, endian)
         L.ty_sexp = lambda tree2=tree2, T=T, top_align=top_align: s1_mixed.mixed_ty_sexp(tree2, T, top_align)  # per-node align flags
 
         def no_overshoot(obj):
